@@ -131,4 +131,14 @@ func init() {
 			{ID: "R10.1b", Title: "stage producers modify only state created inside the producer (per iteration)", Floor: 23, Run: ruleR101stages},
 		},
 	})
+	register(&Property{
+		ID:        "C09",
+		Technique: "ownership/aliasing analysis of backing slices (origin classification of every slice that is written in place or becomes the storage of a list), guard check of the capacity trim of append, receiver-store check of all MapStorage implementations, call-site restriction of the one in-place map update (ListMap.Append) to maps created by the calling function",
+		Explanation: "Decides the mechanism of persistence, not content equality: every in-place write to a []Value (element store, swap, delete-by-append, sort, copy) targets a slice the function allocated itself; a slice that becomes the storage of a list is not written afterwards and is not a buffer the iterator dependency reuses; " +
+			"the in-place append trims the parent's capacity whenever spare capacity was left; ToSlice returns a capacity-capped view and CopyToSlice a fresh copy; no map storage method stores into its receiver; ListMap.Append and Go-map stores only touch maps the function created. Not decided: behaviour of host-provided storages, observable equality of old values.",
+		Rules: []*Rule{
+			{ID: "R09.1", Title: "list backing slices: in-place writes only on own allocations; new lists not backed by reused buffers; append trims the parent; ToSlice capped, CopyToSlice fresh", Floor: 36, Run: ruleR091},
+			{ID: "R09.2", Title: "maps are never updated in place: no receiver stores; ListMap.Append / Go map stores only on maps created by the function", Floor: 40, Run: ruleR092},
+		},
+	})
 }
